@@ -13,7 +13,7 @@ def onesided(f, x, side, n, h=1e-3):
     if n == 1: return side * (-25 * v[0] + 48 * v[1] - 36 * v[2] + 16 * v[3] - 3 * v[4]) / (12 * h)
     return (35 * v[0] - 104 * v[1] + 114 * v[2] - 56 * v[3] + 11 * v[4]) / (12 * h * h)
 
-def check_join(rep, name, case, sp_, fA, fB, d, a, rmin=None):
+def check_join(rep, name, case, sp_, fA, fB, d, a, rmin=None, inside_exact=None, outside_exact=None):
     for x in (d - 0.3, d - 1e-3, d):
         if not close(sp_(x), fA(x), 1e-10, 1e-12): rep.dev(name, case, 'V(%r)=%r' % (x, sp_(x)), 'start potential %r' % fA(x)); return False
     for x in (a, a + 1e-3, a + 0.7):
@@ -22,9 +22,13 @@ def check_join(rep, name, case, sp_, fA, fB, d, a, rmin=None):
     joins = [(d, fA, -1, 'detach'), (a, fB, +1, 'attach')]
     for pt, f, out_side, nm in joins:
         for n in (0, 1, 2):
-            inside = onesided(sp_, pt - out_side * tiny, -out_side, n)       # just inside the spline region, stencil pointing inwards
-            outside = onesided(f, pt, out_side, n)                             # the end potential itself, stencil pointing outwards
-            tol = [1e-7, 5e-4, 2e-2][n]
+            # exact derivatives where a closed form is at hand (stiff end potentials and exp(quintic) make finite differences
+            # with any fixed step unreliable); one-sided 5-point stencils otherwise
+            inside = inside_exact(pt, n) if inside_exact is not None else onesided(sp_, pt - out_side * tiny, -out_side, n)
+            if outside_exact is not None: outside = outside_exact(nm, pt, n)
+            elif n >= 1 and hasattr(f, 'deriv') and (n == 1 or hasattr(f, 'deriv2')): outside = f.deriv(pt) if n == 1 else f.deriv2(pt)
+            else: outside = onesided(f, pt, out_side, n)
+            tol = [1e-7, 5e-4, 2e-2][n] if (inside_exact is None or outside_exact is None) else [1e-7, 1e-6, 1e-5][n]
             if not close(inside, outside, tol, tol * max(1.0, abs(outside))):
                 rep.dev(name, case, 'derivative order %d inside the spline at %s (%r) = %r' % (n, nm, pt, inside), 'end potential: %r' % outside); return False
     if hasattr(sp_, 'deriv'):
@@ -46,12 +50,17 @@ def check_case(rep, case, name):
         if k == 'exp':
             fA, fB = to_api(case['A']), to_api(case['B']); d, a = case['d'], case['a']
             s1 = SplinePotential(fA, fB, d, a)
-            if not check_join(rep, name, case, s1, fA, fB, d, a): return
-            # shape: exp(quintic) + C between the joins
             co = s1.splineCoefficients
+            def inside_exact(x, n):
+                q = sum(c * x ** i for i, c in enumerate(co[:6])); q1 = sum(i * c * x ** (i - 1) for i, c in enumerate(co[:6]) if i >= 1)
+                q2 = sum(i * (i - 1) * c * x ** (i - 2) for i, c in enumerate(co[:6]) if i >= 2)
+                return [math.exp(q) + co[6], q1 * math.exp(q), (q2 + q1 * q1) * math.exp(q)][n]
+            if not check_join(rep, name, case, s1, fA, fB, d, a, inside_exact=inside_exact): return
+            # shape: exp(quintic) + C between the joins
             for x in (d + 0.25 * (a - d), d + 0.6 * (a - d)):
                 want = math.exp(sum(c * x ** i for i, c in enumerate(co[:6]))) + co[6]
-                if not close(s1(x), want, 1e-10, 1e-12): rep.dev(name, case, 'spline(%r)=%r' % (x, s1(x)), 'exp(quintic)+C = %r' % want); return
+                mag = abs(want - co[6]) + abs(co[6])       # exp(q) + C cancels when C is large: the comparison is relative to the terms
+                if abs(s1(x) - want) > 1e-10 * mag + 1e-12: rep.dev(name, case, 'spline(%r)=%r' % (x, s1(x)), 'exp(quintic)+C = %r' % want); return
             defn = 'spline(>0 %s >=%r exp_spline >=%r %s)' % (to_config(case['A']), d, a, to_config(case['B']))
             s2 = from_config(defn)
             for x in (0.5 * d, d, d + 0.3 * (a - d), (d + a) / 2, a, a + 0.5):
@@ -64,7 +73,10 @@ def check_case(rep, case, name):
             b3 = from_config('as.buck4 %r %r %r %r %r %r' % (A, rho, C, d, m, a))
             b4 = from_config('spline(as.buck %r %r 0 >%r buck4_spline %r >%r as.buck 0 1 %r)' % (A, rho, d, m, a, C))
             fA = lambda x: A * math.exp(-x / rho); fB = lambda x: -C / x ** 6
-            if not check_join(rep, name, case, b1, fA, fB, d, a, m): return
+            def outside_exact(nm, x, n):
+                if nm == 'detach': return [A * math.exp(-x / rho), -A / rho * math.exp(-x / rho), A / rho ** 2 * math.exp(-x / rho)][n]
+                return [-C / x ** 6, 6 * C / x ** 7, -42 * C / x ** 8][n]
+            if not check_join(rep, name, case, b1, fA, fB, d, a, m, outside_exact=outside_exact): return
             for x in (0.5 * d, d, (d + m) / 2, m, (m + a) / 2, a, a + 1.0):
                 vals = [b(x) for b in (b1, b2, b3, b4)]
                 if not all(close(vals[0], v, 1e-9, 1e-11) for v in vals): rep.dev(name, case, 'constructions at %r: %r' % (x, vals), 'equal'); return
